@@ -52,6 +52,14 @@ CONTRACTS = {
     "TransEquation.__make_input_iter_expr": dict(params=["self", "rank", "tensors"], returns="Expression", assumed=True,
                                                  modifies=[], raises={"ValueError": None}),
     "SBlock.__init__": dict(kinds={"stmts": "List[Any]"}, modifies=["self.stmts"], ensures=["same_ref(self.stmts, stmts)"]),
+    "SBlock.add": dict(
+        kinds={"stmt": "Any"},
+        requires=["not same_ref(self, stmt)"],
+        modifies=["self.stmts[]"],
+        ensures=[("appends_or_splices",
+                  "(isinstance(stmt, SBlock) and self.stmts == old(self.stmts) + old(cast(SBlock, stmt).stmts)) or "
+                  "(not isinstance(stmt, SBlock) and self.stmts == old(self.stmts) + [stmt])")],
+    ),
 
     "TransEquation.make_eager_inputs": dict(
         modifies=[],
